@@ -7,6 +7,7 @@
 From Coq Require Import List ZArith NArith Bool Arith.
 Import ListNotations.
 From V Require Import Model.Rewrite Model.SeqUpdate Model.SnapOps Proofs.RewriteProofs Proofs.SeqUpdateProofs Proofs.SnapOpsNested.
+From V Require Import Model.Obsolete Proofs.ObsoleteProofs.
 
 Theorem C18_new_code_none_iff :
   forall (t : text) (l : list repl), Rewrite.new_code t l = None <-> check l = false.
@@ -63,6 +64,22 @@ Theorem C18_reachable_wshape :
   SnapOpsFlat.s_old (SnapOpsFlat.r_site (SnapOps.run fixed F (fresh old) ops c)) = old.
 Proof. exact reachable_wshape. Qed.
 
+(* the filter of obsolete changes (Model/Obsolete.v) *)
+Theorem C18_no_change_inside_removed_node :
+  forall (l : list change) (i : nat) (c : change) (j : nat) (d : change) (m : nat),
+  In (i, c) (without_obsolete l) ->
+  In (j, d) (without_obsolete l) ->
+  i <> j -> c_removes d = true -> c_node d = Some m -> ~ In m (c_chain c).
+Proof. exact no_change_inside_removed_node. Qed.
+
+Theorem C18_dropped_only_inside_removed_node :
+  forall (l : list change) (i : nat) (c : change),
+  nth_error l i = Some c ->
+  ~ In (i, c) (without_obsolete l) ->
+  exists (j : nat) (d : change) (m : nat),
+  j <> i /\ nth_error l j = Some d /\ c_removes d = true /\ c_node d = Some m /\ In m (c_chain c).
+Proof. exact dropped_only_inside_removed_node. Qed.
+
 Print Assumptions C18_new_code_none_iff.
 Print Assumptions C18_check_false_witness.
 Print Assumptions C18_check_false_of_witness.
@@ -70,3 +87,5 @@ Print Assumptions C18_check_sound.
 Print Assumptions C18_check_sound_nth.
 Print Assumptions C18_seq_update_spec.
 Print Assumptions C18_reachable_wshape.
+Print Assumptions C18_no_change_inside_removed_node.
+Print Assumptions C18_dropped_only_inside_removed_node.
